@@ -121,6 +121,10 @@ impl Recorder {
             "wall_s": wall_s,
         });
         std::fs::write(args.out.join("meta.json"), serde_json::to_string_pretty(&meta).unwrap()).unwrap();
+        // The results are on disk. If the real code left a thread spinning in a synchronous loop (a wedge the
+        // oracle has already reported as such), dropping the async runtime never returns and the engine would sit
+        // there until `check` times out: leave after a grace period instead.
+        std::thread::spawn(|| { std::thread::sleep(std::time::Duration::from_secs(20)); std::process::exit(0); });
     }
 }
 
